@@ -233,11 +233,14 @@ func (r *vf5Run) apply(o vf5Op) {
 	case "C":
 		f.Close()
 	case "T":
-		// the pending restart timer fires: it is consumed, and its callback Timeout() runs
+		// the restart timer expires: only a pending timer can; it is consumed and Timeout() runs
 		f.mu.Lock()
+		pending := f.timer != nil
 		f.stopTimer()
 		f.mu.Unlock()
-		f.Timeout()
+		if pending {
+			f.Timeout()
+		}
 	case "R":
 		f.Restore()
 	case "K":
@@ -292,6 +295,81 @@ func (r *vf5Run) seqStep(op string) (string, bool) {
 	return r.obs() + ":" + vf5Join(acts) + ":" + vf5Join(calls), true
 }
 
+// Kind "late": a REAL restart timer.  After the prefix the pending timer (if any) is re-armed with
+// a short period; event A runs with a gate in its first callback and stays parked until the timer has
+// fired, so that the timer's callback is waiting for the FSM mutex while A stops or restarts the
+// timer.  The RFC automaton has no timeout event for a stopped timer: the late fire must be ignored;
+// a timer that A left pending fires normally.  Printed: prefix steps, then one combined step.
+const (
+	vf5LatePeriod = 40 * time.Millisecond
+	vf5LateWait   = 110 * time.Millisecond
+)
+
+func (r *vf5Run) lateCase(prefix []string, gate, opA string) string {
+	var out []string
+	for _, op := range prefix {
+		s, ok := r.seqStep(op)
+		if !ok {
+			return "badcase"
+		}
+		out = append(out, s)
+	}
+	a, ok := r.resolve(opA)
+	if !ok {
+		return "badcase"
+	}
+	f, s := r.f, r.s
+	f.mu.Lock()
+	if f.timer != nil {
+		f.restartTime = vf5LatePeriod
+		f.startTimer()
+		f.restartTime = 10 * time.Hour
+	}
+	f.mu.Unlock()
+	s.mu.Lock()
+	s.acts, s.calls, s.cls = nil, nil, ""
+	s.gate, s.parked, s.release = gate, make(chan struct{}), make(chan struct{})
+	parked, release := s.parked, s.release
+	s.mu.Unlock()
+	doneA := make(chan struct{})
+	go func() { defer close(doneA); r.apply(a) }()
+	ov := "ov=0"
+	select {
+	case <-parked:
+		ov = "ov=1"
+		time.Sleep(vf5LateWait) // the timer fires; its callback now waits for f.mu
+		close(release)
+		select {
+		case <-doneA:
+		case <-time.After(10 * time.Second):
+			return "hang"
+		}
+		time.Sleep(30 * time.Millisecond) // the late callback runs
+	case <-doneA:
+		s.mu.Lock()
+		s.gate = ""
+		s.mu.Unlock()
+		time.Sleep(vf5LateWait) // a timer that is still pending fires
+	case <-time.After(10 * time.Second):
+		return "hang"
+	}
+	s.mu.Lock()
+	acts, calls := s.acts, s.calls
+	s.mu.Unlock()
+	// "armed" here = a timer is really pending: a time.Timer that has fired and was left in f.timer is
+	// not (Stop reports whether it stopped a pending timer; the case ends here, so stopping is harmless)
+	st := f.State()
+	f.mu.Lock()
+	armed := 0
+	if f.timer != nil && f.timer.Stop() {
+		armed = 1
+	}
+	o := fmt.Sprintf("%d/%d/%d/%d/%d/%d", st, f.restartCount, armed, f.lastReqID, f.id, f.failCount)
+	f.mu.Unlock()
+	out = append(out, o+":"+vf5Join(acts)+":"+vf5Join(calls), ov)
+	return strings.Join(out, " ")
+}
+
 func vf5Case(line string) (res string) {
 	defer func() {
 		if e := recover(); e != nil {
@@ -305,7 +383,7 @@ func vf5Case(line string) (res string) {
 	r := &vf5Run{s: &vf5Stream{}}
 	var inner OptionHandler
 	switch tk[0] {
-	case "fsm", "conc":
+	case "fsm", "conc", "late":
 		r.mock = true
 		inner = &vf5Mock{}
 		r.f = NewFSM(ProtoLCP, r.callbacks(), nil)
@@ -348,6 +426,18 @@ func vf5Case(line string) (res string) {
 	ops := tk[3:]
 	var out []string
 	var pair []string
+	if tk[0] == "late" {
+		k := -1
+		for i, o := range ops {
+			if o == "/" {
+				k = i
+			}
+		}
+		if k < 0 || len(ops)-k != 3 {
+			return "badcase"
+		}
+		return r.lateCase(ops[:k], ops[k+1], ops[k+2])
+	}
 	if tk[0] == "conc" {
 		k := -1
 		for i, o := range ops {
@@ -457,6 +547,17 @@ func vf5Case(line string) (res string) {
 	return strings.Join(out, " ")
 }
 
+func vf5Guarded(line string) string {
+	ch := make(chan string, 1)
+	go func() { ch <- vf5Case(line) }()
+	select {
+	case res := <-ch:
+		return res
+	case <-time.After(60 * time.Second):
+		return "hang"
+	}
+}
+
 func TestVerifC05(t *testing.T) {
 	in, err := os.Open(os.Getenv("VERIF_CASES"))
 	if err != nil {
@@ -472,15 +573,30 @@ func TestVerifC05(t *testing.T) {
 	defer w.Flush()
 	sc := bufio.NewScanner(in)
 	sc.Buffer(make([]byte, 1<<20), 1<<26)
+	var lines []string
 	for sc.Scan() {
-		line := sc.Text()
-		ch := make(chan string, 1)
-		go func() { ch <- vf5Case(line) }()
-		select {
-		case res := <-ch:
-			fmt.Fprintln(w, res)
-		case <-time.After(30 * time.Second):
-			fmt.Fprintln(w, "hang")
-		}
+		lines = append(lines, sc.Text())
+	}
+	// every case has its own FSM; cases run on a small worker pool (the waiting of the conc / late
+	// kinds overlaps), results are written in input order
+	res := make([]string, len(lines))
+	var wg sync.WaitGroup
+	next := make(chan int, len(lines))
+	for i := range lines {
+		next <- i
+	}
+	close(next)
+	for k := 0; k < 8; k++ {
+		wg.Add(1)
+		go func() {
+			defer wg.Done()
+			for i := range next {
+				res[i] = vf5Guarded(lines[i])
+			}
+		}()
+	}
+	wg.Wait()
+	for _, l := range res {
+		fmt.Fprintln(w, l)
 	}
 }
